@@ -1054,6 +1054,41 @@ func (e *emitter) c04GlueDial(c *c04sem, rel string) {
 	}, c, "(opts : List (Option Int)) : Int")
 }
 
+// c04Forwarding: the calls of `callee` inside fn as a typed list: (callee, [argument expressions; a variadic one ends in ...]).
+func (e *emitter) c04Forwarding(s *source, lean string, sites [][3]string) {
+	e.printf("/-- forwarded argument lists of the delegating entry points: (function, callee, arguments) -/\ndef %s : List (String × String × List String) := [", lean)
+	first := true
+	for _, site := range sites {
+		rel, fn, callee := site[0], site[1], site[2]
+		fd := s.findFunc(rel, fn)
+		if fd == nil {
+			e.errors = append(e.errors, "function "+fn+" not found in "+rel)
+			continue
+		}
+		ast.Inspect(fd.Body, func(n ast.Node) bool {
+			call, ok := n.(*ast.CallExpr)
+			if !ok || s.src(call.Fun) != callee {
+				return true
+			}
+			var args []string
+			for i, a := range call.Args {
+				t := s.src(a)
+				if call.Ellipsis.IsValid() && i == len(call.Args)-1 {
+					t += "..."
+				}
+				args = append(args, leanString(t))
+			}
+			if !first {
+				e.printf(",")
+			}
+			first = false
+			e.printf("\n  (%s, %s, [%s])", leanString(fn), leanString(callee), strings.Join(args, ", "))
+			return true
+		})
+	}
+	e.printf("]\n\n")
+}
+
 func (e *emitter) c04Glue(s *source) {
 	e.printf("/-! ### c04glue: the zrpc configuration glue, translated -/\n\n")
 	c := &c04sem{s: s, fields: map[string]string{}, funcs: map[string]bool{}, thunks: map[string]bool{}}
@@ -1066,6 +1101,15 @@ func (e *emitter) c04Glue(s *source) {
 	e.c04GlueDial(c, "zrpc/internal/client.go")
 	e.c04GuardedDef(s, "zrpc/internal/client.go", "NewClient", "zrpcCliInternalNew", []string{"opts"})
 	e.c04GuardedDef(s, "zrpc/internal/client.go", "client.dial", "zrpcCliDial", []string{"buildDialOptions", "options..."})
+	e.c04Forwarding(s, "zrpcForwarding", [][3]string{
+		{"zrpc/client.go", "NewClient", "internal.NewClient"},
+		{"zrpc/internal/client.go", "NewClient", "append"},
+		{"zrpc/internal/client.go", "NewClient", "cli.dial"},
+		{"zrpc/internal/client.go", "client.dial", "c.buildDialOptions"},
+		{"zrpc/internal/client.go", "client.dial", "grpc.DialContext"},
+		{"zrpc/client.go", "WithCallTimeout", "clientinterceptors.WithCallTimeout"},
+		{"rest/server.go", "Server.AddRoute", "s.AddRoutes"},
+	})
 }
 
 func (e *emitter) c04Semantic(s *source) {
